@@ -115,7 +115,7 @@ def check_estimates(inputs, output, sd, ssa, order, late, info=None):
                 for k in ("max_size", "peak_size", "write"):
                     if f[k] > big[k]:
                         return f"chi={chi}: {k} = {f[k]} exceeds its uncapped value {big[k]}"
-                if info is not None and any(f[k] != big[k] for k in ("max_size", "peak_size", "write", "flops")):
+                if info is not None and any(f[k] != big[k] for k in ("max_size", "peak_size", "write")):
                     info["truncating"] = info.get("truncating", 0) + 1
         except Exception as e:  # noqa: BLE001
             return f"raised {type(e).__name__}: {str(e)[:100]}"
@@ -350,7 +350,7 @@ def _work(item):
                 case.update({"family": "finder", "how": how})
                 viols.append((f"C20 {lab} on {eq} sizes {pc.sizes_str(sd)}: {msg}", case))
     extra = {"cases_with_chi=huge_equality_checked": info.get("equal_checked", 0),
-             "(case, chi) pairs where the cap actually changes an estimate": info.get("truncating", 0)}
+             "(case, chi) pairs where the cap actually changes a size estimate": info.get("truncating", 0)}
     return {"name": name, "n": n_eval, "keys": b"".join(keys), "viols": viols, "samples": samples, "fires": fires, "extra": extra}
 
 
@@ -398,15 +398,15 @@ def _plans(tier, rng):
                 {"trees": "all"}, "estimates; one output order per output set"))
     out.append(("ordinary part of Net(3,3,2) x all 3 trees (+ finders on the connected ones)", ordinary_part(scope.networks(3, 3, 2, outputs="sets")), True,
                 {"trees": "all", "finders": 2}, "estimates for connected and disconnected; finders with 2 parameter samples"))
-    out.append(("ordinary Net(3,3,3) sample x all 3 trees", ordinary_part(scope.sample_networks(3, 3, 3, 2500 if q else 40000, rng)), False,
+    out.append(("ordinary Net(3,3,3) sample x all 3 trees", ordinary_part(scope.sample_networks(3, 3, 3, 6000 if q else 40000, rng)), False,
                 {"trees": "all", "finders": 2}, "seeded sample (ordinary part)"))
-    out.append(("ordinary Net(4,4,2..3) sample x all 15 trees", sample_ordinary(4, 4, 4, 3, 250 if q else 5000, rng, connected=False), False,
+    out.append(("ordinary Net(4,4,2..3) sample x all 15 trees", sample_ordinary(4, 4, 4, 3, 700 if q else 5000, rng, connected=False), False,
                 {"trees": "all", "finders": 4}, "seeded sample, connected and disconnected"))
-    out.append(("ordinary Net(5,5,3) sample x all 105 trees", sample_ordinary(5, 5, 5, 3, 30 if q else 600, rng, connected=False), False,
+    out.append(("ordinary Net(5,5,3) sample x all 105 trees", sample_ordinary(5, 5, 5, 3, 70 if q else 600, rng, connected=False), False,
                 {"trees": "all", "finders": 4}, "seeded sample"))
-    out.append(("ordinary connected networks, 6-8 tensors over 6 symbols, x 12 random trees", sample_ordinary(6, 8, 6, 3, 120 if q else 2500, rng, connected=True), False,
+    out.append(("ordinary connected networks, 6-8 tensors over 6 symbols, x 12 random trees", sample_ordinary(6, 8, 6, 3, 300 if q else 2500, rng, connected=True), False,
                 {"trees": 12, "finders": 8}, "seeded sample; 0-4 output indices"))
-    out.append(("finders: ordinary connected networks, 3-8 tensors over 6 symbols, 0-4 output indices", sample_ordinary(3, 8, 6, 3, 800 if q else 15000, rng, connected=True), False,
+    out.append(("finders: ordinary connected networks, 3-8 tensors over 6 symbols, 0-4 output indices", sample_ordinary(3, 8, 6, 3, 2000 if q else 15000, rng, connected=True), False,
                 {"trees": 0, "finders": 8}, "seeded sample; 8 samples of each registered space (greedy-compressed, greedy-span, greedy-span-max, kahypar-agglom), "
                 "HyperCompressedOptimizer per method, presets"))
     return out
@@ -446,3 +446,12 @@ def run_bounded(rep: Report, tier: str) -> None:
                     rep.crash("C20 harness inconsistency: " + sig[:300])
     agg.viols = [v for v in agg.viols if ": HARNESS" not in v[0]]
     agg.finish()
+    # non-vacuity of the monotonicity claim: on the unchanged tree roughly every second (case, chi) pair is one
+    # in which the cap really changes an estimate; if that never happens the "<= uncapped" comparison says nothing.
+    key = "(case, chi) pairs where the cap actually changes a size estimate"
+    if rep.evaluations and not rep.extra.get(key, 0) and not rep.violations:
+        rep.undecided_obligation(
+            "C20 monotonicity-in-chi (bounded)",
+            "no cap in {1,2,4,16} changed any estimate in any case: the comparison with the uncapped values is vacuous "
+            "(does HyperGraph.compress still cap merged bonds at chi?)",
+        )
